@@ -288,6 +288,14 @@ def run_truncate_decode(ctx):
     def chunk_loop(f, g, take=None):
         """Ok(vec) where vec is pushed once per chunk of `input.chunks(self.bits)` [.take(take)] with decode_range_checked_int(chunk)"""
         pushes = [(bi, c) for bi, c in calls_named(ctx, f, "push") if g.loop_of(bi) is not None]
+        if not pushes:
+            # `decode(chunk).map(|v| out.push(v))?` - the push sits in the closure handed to Result::map
+            maps = [(bi, c) for bi, c in calls_named(ctx, f, "map") if g.loop_of(bi) is not None and c[2] and drc(item)(c[2][0]) and len(c[2]) == 2 and c[2][1][0] == "closure"]
+            if len(maps) == 1:
+                cf = ctx.prog.by_did.get(maps[0][1][2][1][3])
+                inner = [c for bi, c in calls_named(ctx, cf, "push")] if cf is not None and cf.body is not None else []
+                if len(inner) == 1:
+                    pushes = [(maps[0][0], ("call", "push", (inner[0][2][0], ("try", maps[0][1][2][0])), None, None))]
         if len(pushes) != 1 or not Try(drc(item))(pushes[0][1][2][1]):
             return False
         class _E:
